@@ -218,8 +218,68 @@ func (g *Gen) bits(n uint64) []bool {
 	return b
 }
 
+// Val: a value as a tree along its type (leaves hold their encoding).
+type Val struct {
+	T     *Ty
+	B     []byte // leaf kinds: canonical encoding
+	Elems []*Val // vector/list elements, container fields
+}
+
+func (v *Val) Clone() *Val {
+	c := &Val{T: v.T, B: append([]byte(nil), v.B...)}
+	for _, e := range v.Elems {
+		c.Elems = append(c.Elems, e.Clone())
+	}
+	return c
+}
+
+func isLeaf(t *Ty) bool {
+	switch t.Kind {
+	case KVector, KList, KContainer:
+		return false
+	}
+	return true
+}
+
+// Enc: canonical encoding with the mutator marks.
+func (v *Val) Enc() *Enc {
+	t := v.T
+	switch t.Kind {
+	case KBool:
+		return &Enc{B: v.B, M: Marks{Bools: []int{0}}}
+	case KBitvector:
+		e := &Enc{B: v.B}
+		if t.N%8 != 0 {
+			e.M.BitvecPad = []BitvecPad{{len(e.B) - 1, uint(t.N % 8)}}
+		}
+		return e
+	case KBitlist:
+		return &Enc{B: v.B, M: Marks{BitlistLast: []int{len(v.B) - 1}}}
+	case KVector, KList:
+		_, fixed := t.Elem.FixedSize()
+		parts := make([]part, 0, len(v.Elems))
+		for _, e := range v.Elems {
+			parts = append(parts, part{fixed, e.Enc()})
+		}
+		return layout(parts)
+	case KContainer:
+		parts := make([]part, 0, len(v.Elems))
+		for i, e := range v.Elems {
+			_, fixed := t.Fields[i].T.FixedSize()
+			parts = append(parts, part{fixed, e.Enc()})
+		}
+		return layout(parts)
+	}
+	return &Enc{B: v.B}
+}
+
+func (v *Val) Bytes() []byte { return v.Enc().B }
+
 // Value: a random value of type t, encoded canonically.
-func (g *Gen) Value(t *Ty) *Enc {
+func (g *Gen) Value(t *Ty) *Enc { return g.Tree(t).Enc() }
+
+// Tree: a random value of type t.
+func (g *Gen) Tree(t *Ty) *Val {
 	switch t.Kind {
 	case KUint:
 		b := make([]byte, t.N)
@@ -241,26 +301,21 @@ func (g *Gen) Value(t *Ty) *Enc {
 				}
 			}
 		}
-		return &Enc{B: b}
+		return &Val{T: t, B: b}
 	case KBool:
 		v := byte(0)
 		if g.Mode == 2 || (g.Mode == 0 && g.R.Bool()) {
 			v = 1
 		}
-		return &Enc{B: []byte{v}, M: Marks{Bools: []int{0}}}
+		return &Val{T: t, B: []byte{v}}
 	case KByteVector:
-		return &Enc{B: g.bytes(int(t.N))}
+		return &Val{T: t, B: g.bytes(int(t.N))}
 	case KByteList:
 		n := g.count(t.N, 1)
 		g.Left -= int(n)
-		return &Enc{B: g.bytes(int(n))}
+		return &Val{T: t, B: g.bytes(int(n))}
 	case KBitvector:
-		bits := g.bits(t.N)
-		e := &Enc{B: packBits(bits)}
-		if t.N%8 != 0 {
-			e.M.BitvecPad = []BitvecPad{{len(e.B) - 1, uint(t.N % 8)}}
-		}
-		return e
+		return &Val{T: t, B: packBits(g.bits(t.N))}
 	case KBitlist:
 		// a bitlist of n bits costs n/8+1 bytes
 		me := g.node
@@ -284,11 +339,9 @@ func (g *Gen) Value(t *Ty) *Enc {
 				n = minU(c, max)
 			}
 		}
-		bits := append(g.bits(n), true)
-		e := &Enc{B: packBits(bits)}
-		e.M.BitlistLast = []int{len(e.B) - 1}
-		g.Left -= len(e.B)
-		return e
+		b := packBits(append(g.bits(n), true))
+		g.Left -= len(b)
+		return &Val{T: t, B: b}
 	case KVector, KList:
 		var n uint64
 		fs, fixed := t.Elem.FixedSize()
@@ -301,26 +354,24 @@ func (g *Gen) Value(t *Ty) *Enc {
 			}
 			n = g.count(t.N, m)
 		}
-		parts := make([]part, 0, n)
 		if fixed {
 			g.Left -= int(n * fs)
 		} else {
 			g.Left -= int(4 * n)
 		}
+		v := &Val{T: t}
 		for i := uint64(0); i < n; i++ {
-			parts = append(parts, part{fixed, g.Value(t.Elem)})
+			v.Elems = append(v.Elems, g.Tree(t.Elem))
 		}
-		return layout(parts)
+		return v
 	case KContainer:
-		parts := make([]part, 0, len(t.Fields))
-		// reserve the budget the remaining fields need at least, so late fields are not starved
+		v := &Val{T: t}
 		for _, f := range t.Fields {
-			_, fixed := f.T.FixedSize()
-			parts = append(parts, part{fixed, g.Value(f.T)})
+			v.Elems = append(v.Elems, g.Tree(f.T))
 		}
-		return layout(parts)
+		return v
 	}
-	return &Enc{}
+	return &Val{T: t}
 }
 
 func satSub(a, b uint64) uint64 {
